@@ -199,6 +199,10 @@ def _hostile():
         comps = dict(MEDIA_COMPONENTS)
         comps["RTCSctpTransport, RTCDataChannel"] = "real (on the real DTLS transports)"
         comps["forging actor"] = "harness: byte-level builders (own CRC32c), sent through the peer's real DTLS/SRTP or injected raw at ICE level"
+        comps["decoder_worker, audio and video decoders (libav through PyAV)"] = (
+            "real, for the audio stream and the second video stream: the real worker function in a real thread that runs only "
+            "while the event loop thread waits in put() (baton queue); the first video stream's decoder queue is a tap")
+        comps["audio / second video sender"] = "harness: RTP packets with payloads produced once by aiortc's own encoders"
         return {
             "fn": hostile_sim.run, "spec": {}, "level": "fault_enumeration", "quick_s": 50, "thorough_s": 600,
             "rule": ("each evaluation is one simulated session (transports connected; SCTP start, channel open, media start, bursts as "
@@ -209,9 +213,11 @@ def _hostile():
                          len(hostile_sim.ALL_CLASSES), len(hostile_sim.ALL_CLASSES)),
             "components": comps,
             "state_measure": "(datagram layer, victim SCTP association state, media started, channel open) at every injection",
-            "assumptions": MEDIA_ASSUME + ["cost is measured in executed Python lines (sys.monitoring) while the victim handles one forged datagram; "
-                                           "memory is not measured separately"],
-            "probes_expected": ["injected", "final_data_round_trip", "final_media_flowing", "cost_samples"] +
+            "assumptions": MEDIA_ASSUME + ["cost is measured in executed Python lines (sys.monitoring) while the victim handles one forged datagram (work done "
+                                           "inside C-level loops is not seen: seeded change X01 is not caught for that reason); peak "
+                                           "allocation is measured with tracemalloc around the same handler"],
+            "probes_expected": ["injected", "final_data_round_trip", "final_media_flowing", "cost_samples", "memory_samples",
+                                "final_audio_decoded", "video_decoded_on_after_undecodable_frame"] +
                                ["inj_" + c for c in hostile_sim.ALL_CLASSES],
         }
     return build
